@@ -5,7 +5,7 @@
    xdiff   = fdiff_m on signatures whose defaults are expression trees, compared through a key. *)
 From Coq Require Import List Arith Bool ZArith.
 From Verif Require Import Lib.Sexp Model.C10_kinds Gen.C10_tables Gen.C10_rules Model.C10_diff Model.C10_defaults Model.C10_ext
-  Proofs.C10_diff Proofs.C10_complete Proofs.C10_sound Proofs.C10_rule Proofs.C10_defaults.
+  Model.C10_hist Proofs.C10_diff Proofs.C10_complete Proofs.C10_sound Proofs.C10_rule Proofs.C10_defaults Proofs.C10_hist.
 Import ListNotations.
 Open Scope list_scope. Open Scope nat_scope.
 
@@ -170,3 +170,23 @@ Theorem C10_collision_rule_sound : forall old new b,
   exists n K, witness old new b = Some (n, K) /\ binds old n K = true /\ binds new n K = false.
 Proof. exact collision_rule_sound. Qed.
 Print Assumptions C10_collision_rule_sound.
+
+(* ---- signatures produced by edits of the Parameters container: a replaced or deleted parameter's name is gone from the
+   container, so the diff against the edited signature reports the removal unless a variadic of new swallows it ---- *)
+Theorem C10_replaced_name_forgotten : forall s i q p, nodup_names s = true -> nth_error s i = Some q -> pname p <> pname q ->
+  find (pname q) (set_nth i p s) = None.
+Proof. exact replaced_name_forgotten. Qed.
+Print Assumptions C10_replaced_name_forgotten.
+Theorem C10_replaced_parameter_reported : forall ck s o i q p,
+  nodup_names s = true -> nth_error s i = Some q -> pname p <> pname q ->
+  (o = HSetIdx i p \/ (o = HSetName (pname q) p)) ->
+  let new := fst (h_apply pname s o) in
+  In (Removed (pname q)) (fdiff_g ck s new) \/ swallowed (pkind q) (has_kind VP new) (has_kind VK new) = true.
+Proof. exact replaced_parameter_reported. Qed.
+Print Assumptions C10_replaced_parameter_reported.
+Theorem C10_deleted_parameter_reported : forall ck s i q,
+  nodup_names s = true -> nth_error s i = Some q ->
+  let new := fst (h_apply pname s (HDelIdx i)) in
+  In (Removed (pname q)) (fdiff_g ck s new) \/ swallowed (pkind q) (has_kind VP new) (has_kind VK new) = true.
+Proof. exact deleted_parameter_reported. Qed.
+Print Assumptions C10_deleted_parameter_reported.
